@@ -427,7 +427,7 @@ def _run(ctx: Ctx, pool):
 
     f_obs = tl("ObsGroup", _cfg("ObsGroup", ctx), "obs")
     f_seq = tl("ObsGroup", _cfg("ObsGroup_seq", ctx), "obs_seq", coverage=not q)
-    f_sim = tl("ObsGroup", _cfg("ObsGroup_sim", ctx), "obs_sim", workers=1, simulate=f"num={30 if q else 800}",
+    f_sim = tl("ObsGroup", _cfg("ObsGroup_sim", ctx), "obs_sim", workers=1, simulate=f"num={30 if q else 300}",
                depth=16 if q else 22, seed=ctx.seed + 1)
     f_res = tl("Angles", _cfg("Angles_res", ctx), "res", coverage=not q)
     f_mean = tl("Angles", _cfg("Angles_mean", ctx), "mean", coverage=not q)
